@@ -24,7 +24,9 @@
  *                   equal to root), full invariant walk after every
  *                   operation, drain at the end, iv_deinit + leak check.
  */
+#ifndef _GNU_SOURCE
 #define _GNU_SOURCE
+#endif
 #include <stdio.h>
 #include <stdlib.h>
 #include <string.h>
